@@ -868,6 +868,48 @@ func Harness_C15_stack_mixed() {
 	VerifCover("done")
 }
 
+// Harness_C15_utf8names: names that are UTF-8 text (neighbouring keys whose first difference is a continuation byte of a multi-byte sequence) cross the language boundary like any other bytes.
+// bounds: 5 refs with concrete names "caf\xc3\xa8", "caf\xc3\xa9", "x\xe6\x97\xa5", "x\xe6\x97\xa6", "x\xe6\x9c\xac" (value byte symbolic); BlockSize {64, default} x Unaligned x RestartInterval {1, 16}; writer in {Go, C}; key = any of the names, a proper prefix of one, or empty; both readers against each other and against the input
+// assumes: as Harness_C15_small_seek
+// covers: done
+func Harness_C15_utf8names() {
+	dir := VerifChoose(2)
+	cfg := Config{BlockSize: []uint32{64, 0}[VerifChoose(2)], Unaligned: VerifChoose(2) == 1, RestartInterval: 1 - VerifChoose(2)}
+	names := []string{"caf\xc3\xa8", "caf\xc3\xa9", "x\xe6\x97\xa5", "x\xe6\x97\xa6", "x\xe6\x9c\xac"}
+	var refs []*RefRecord
+	for i, nm := range names {
+		v := hashWith(20, byte(i+1), 2)
+		if i == 0 {
+			v[2] = VerifU8()
+		}
+		refs = append(refs, &RefRecord{RefName: nm, UpdateIndex: 1, Value: v})
+	}
+	data, ok := c15SmallTable(dir, cfg, 1, 1, refs)
+	VerifAssert(ok, "writer-accepts")
+	if !ok {
+		return
+	}
+	rd, err := NewReader(&ByteBlockSource{data}, "t")
+	VerifAssert(err == nil, "go-newreader")
+	if err != nil {
+		return
+	}
+	keys := []string{"", "caf\xc3", "x\xe6\x97", "x\xe6"}
+	keys = append(keys, names...)
+	key := keys[VerifChoose(len(keys))]
+	exp := c15Head(nil, 1, 1)
+	for _, r := range refs {
+		if r.RefName >= key {
+			exp = c15Ref(exp, r, 20)
+		}
+	}
+	exp = c15End(exp, 0)
+	goDump := c15GoRefs(rd, key, 20)
+	VerifAssert(goDump == nil || bytesEq(goDump, exp), "seekref-differs-from-input")
+	c15Same(data, 0, []byte(key), 0, goDump, "readers-differ-on-seekref")
+	VerifCover("done")
+}
+
 // Harness_C15_stack_partial: a compaction by the C implementation of a range above the bottom table (automatic compaction of small tables on top of a large one) leaves a directory the Go implementation opens and reads alike.
 // bounds: Go adds a table of 30 refs, then two small transactions are added (each by Go or by C, without compaction), then C runs auto_compact or adds a third small transaction with automatic compaction; then both merged views are compared and checked against the transactions; BlockSize 256, sha1
 // assumes: sequential, as above
